@@ -294,8 +294,9 @@ def _dfs_iter_tree(
 ) -> Iterator[TreeMapKey]:
   """Iterates through the tree using DFS and yield all Key.
 
-  All non-Mapping and non-Sequence (with exception of str) is considered a leaf,
-  note: numpy array are considered a leaf.
+  Only a Mapping, a list or a tuple is a node, these are what a key path can be
+  read from. Everything else is considered a leaf, note: numpy arrays, str,
+  bytes and any other Sequence are leaves.
 
   Args:
     data: A TreeLike instance.
@@ -307,14 +308,12 @@ def _dfs_iter_tree(
   if isinstance(data, Mapping) and data:
     for k, v in data.items():
       yield from _dfs_iter_tree(v, parent_key_path.at(k))
-  elif isinstance(data, Sequence) and not isinstance(data, str) and data:
+  elif isinstance(data, (list, tuple)) and data:
     for i, v in enumerate(data):
       yield from _dfs_iter_tree(v, parent_key_path.at(Index(i)))
   elif parent_key_path:
     yield Key(parent_key_path)
-  elif data is not None and not (
-      isinstance(data, (Mapping, Sequence)) and not isinstance(data, str)
-  ):
+  elif data is not None and not isinstance(data, (Mapping, list, tuple)):
     # The root itself is a leaf, also a falsy one (0, '') or an array: only an
     # empty container (or no data) has no leaf.
     yield Key().SELF
